@@ -143,6 +143,47 @@ class Ctx:
                 expected=None if e is not None else pat)
         return e
 
+    def unroll(self, body, d, depth=1):
+        """replace every (loop _l@bbH) marker in d by the value carried over the back edge(s) of H (one iteration)"""
+        dag = body.dag()
+
+        def rec(x, k):
+            if not isinstance(x, tuple) or not x:
+                return x
+            if x[0] == 'loop':
+                if k <= 0 or x[2] < 0:
+                    return x
+                c = simplify(dag.carried(x[1], x[2]))
+                return rec(c, k - 1)
+            if x[0] in ('param', 'const', 'fn', 'undef'):
+                return x
+            return tuple(rec(y, k) if isinstance(y, tuple) else y for y in x)
+        return simplify(rec(d, depth))
+
+    def pushes(self, body, d):
+        """for a collection value d built in loops: (initial alternatives, [pushed element DAGs with callee])"""
+        u = self.unroll(body, d, 2)
+        inits, elems = [], []
+
+        def rec(x):
+            if not isinstance(x, tuple) or not x:
+                return
+            if x[0] == 'phi':
+                for a in x[1:]:
+                    rec(a)
+            elif x[0] == 'mut':
+                rec(x[3])
+                e = (x[1], x[2], x[4:])
+                if e not in elems:
+                    elems.append(e)
+            elif x[0] == 'loop':
+                pass
+            else:
+                if x not in inits:
+                    inits.append(x)
+        rec(u)
+        return inits, elems
+
     # ---------------------------------------------------------------- closures
     def closure_body(self, defpath):
         for b in self.facts.bodies.values():
